@@ -229,7 +229,9 @@ inline bool IsNamedTupleClassImpl(const py::handle& type) {
         [[unlikely]] {
         if (PyObject* const _fields = PyObject_GetAttr(type.ptr(), Py_Get_ID(_fields)))
             [[unlikely]] {
-            bool fields_ok = static_cast<bool>(PyTuple_CheckExact(_fields));
+            // NOTE: accept instances of tuple subclasses as the Python implementation does
+            // (`isinstance(cls._fields, tuple)`).
+            bool fields_ok = static_cast<bool>(PyTuple_Check(_fields));
             if (fields_ok) [[likely]] {
                 for (const auto& field : py::reinterpret_borrow<py::tuple>(_fields)) {
                     if (!static_cast<bool>(PyUnicode_CheckExact(field.ptr()))) [[unlikely]] {
